@@ -79,17 +79,22 @@ func selftestMain(args []string) int {
 			fmt.Println("selftest: no mutants selected")
 			return 0
 		}
-		n := *jobs
-		if n > len(sel) {
-			n = len(sel)
-		}
+		// Mutants are run in short-lived child processes of at most chunkSize
+		// mutants each (rule files keep per-program memo tables; a long-lived
+		// process holding dozens of loaded programs grew to 20 GB), at most
+		// *jobs of them at a time.
+		const chunkSize = 3
+		n := (len(sel) + chunkSize - 1) / chunkSize
 		var wg sync.WaitGroup
 		outs := make([]string, n)
 		codes := make([]int, n)
+		sem := make(chan struct{}, max(1, *jobs))
 		for i := 0; i < n; i++ {
 			wg.Add(1)
 			go func(i int) {
 				defer wg.Done()
+				sem <- struct{}{}
+				defer func() { <-sem }()
 				a := append([]string{"selftest", "-shard", fmt.Sprintf("%d/%d", i, n), "-repo", *repo, "-verif", *verif}, passthrough(*prop, *name)...)
 				cmd := exec.Command(os.Args[0], a...)
 				b, err := cmd.CombinedOutput()
